@@ -34,6 +34,9 @@ var poolPaths = []string{
 	"$missing", "$v", "$v.a", "$i + 1", "\"s\"", "null", "true", "1.5", "$v[*]", "$v ? (@ > 1)",
 	// last outside subscripts is rejected by the parser; nested last
 	"$[$[last]]", "$[last - 1]",
+	// non-suppressible errors raised inside subscript expressions and predicates
+	"$[$missing]", "$[0 to $missing]", "$ ? (@[$missing] == 1)", "$.a[$missing] == 1", "$[$[0].decimal(0)]", "$ ? (exists(@[$missing]))",
+	"$[*] ? (@.a.decimal(0) > 1)", "$.a.decimal(0)", "$.a.decimal(5,2000)", "$ ? (@.a == $missing || @.b == 1)",
 	// the document value as the right operand
 	"$i < $.a", "1 <= $.a", "$v == $.a", "$[*] ? ($i > @)", "$.a.b > $.a.a", "$.keyvalue() ? (@.value > 1)",
 }
